@@ -255,6 +255,14 @@ func run(seed int64, n int, dir string, _ []string) {
 			"SELECT DISTINCT b FROM big GROUP BY b, c",
 			"SELECT DISTINCT COUNT(*) FROM big GROUP BY b, c",
 			"SELECT id FROM big ORDER BY b, a DESC, id",
+			// heavy ties: the order of rows with equal sort keys must not depend on how many workers there are
+			"SELECT id, b FROM big ORDER BY b",
+			"SELECT id, c FROM big ORDER BY c DESC NULLS FIRST, b",
+			"SELECT id, b, RANK() OVER (ORDER BY b DESC) AS r FROM big",
+			"SELECT id, c FROM big ORDER BY c LIMIT 50 OFFSET 20",
+			"SELECT id FROM big ORDER BY b DESC LIMIT 37 PERCENT",
+			"SELECT b, c, COUNT(*) FROM big GROUP BY b, c ORDER BY b",
+			"SELECT id, b FROM (SELECT id, b FROM big ORDER BY b) t WHERE id % 2 = 0",
 			"SELECT x.id, y.id FROM big x JOIN small y ON x.b = y.b",
 			// the short table drives (the long one is the joined table), every join kind and spelling
 			"SELECT x.id, y.id FROM small y JOIN big x ON x.b = y.b",
